@@ -91,7 +91,11 @@ EXTRA = {
     "C13": " A dedicated part creates two collections whose name + index field spell the same text when joined by a separator (p / q<sep>r against p<sep>q / r) with shared document ids and checks scans, counts, index drops and collection drops on both.",
     "C15": " The cursor contract also covers keys deleted again, a rolled-back transaction (no trace) and two cursors open at once in one read-only transaction (independent positions).",
     "C18": " Has/Get of every path of the alphabet are compared with the reference lookup before and after Set (reads must not change the document), SetAll equals Set, Copy/AsMap show the same content, and document.Encode (what Insert does) must leave the document canonical and decode to it.",
-    "C09": " IterateDocs (the exported engine under ForEach/Count) must visit exactly the FindAll sequence as well.",
+    "C09": " IterateDocs (the exported engine under ForEach/Count) must visit exactly the FindAll sequence as well; a third of the histories start from 13-40 documents over a tiny value domain, so that FindFirst/ForEach identity is checked among many ties and beyond a dozen results.",
+    "C02": " A string-twins part stores strings with NUL and 0xFF bytes right after shared prefixes in an indexed and an unindexed collection and queries both with anchored Like patterns over stored prefixes, comparisons and pairs around stored strings.",
+    "C07": " A snapshot-readers part runs one writer issuing bulk Updates over 257-1100 documents against readers that export, scan and index-scan the collection: every single ExportCollection / FindAll result must show one generation for all documents.",
+    "C20": " A document-API part drives Set / SetAll / Get / Has / Copy / AsMap / Fields / NewDocumentOf / Unmarshal / Encode with reflection-built Go values (including structs embedding unexported types) for panics.",
+    "C04": " Count without criteria (answered from the collection metadata, with skip) is among the operations under fault; the ghost probe also counts with a skip.",
     "C12": " Caller-supplied ids include the all-zero and all-F UUIDs; id-less documents of a batch built from one Go map must receive distinct ids.",
     "C14": " Field alphabets include names differing only by a trailing blank or by case; after every catalog change criteria served by one index are combined with a sort on another indexed field.",
 }
